@@ -42,7 +42,10 @@ import (
 func init() {
 	trStubs["unicode"] += "func IsLetter(r rune) bool\n"
 	trStubs["unicode/utf8"] += "const RuneError = '\\uFFFD'\nfunc DecodeRuneInString(s string) (rune, int)\n"
-	trStubs["io"] = "package io\nvar EOF error\n"
+	if trStubs["io"] == "" {
+		trStubs["io"] = "package io\n"
+	}
+	trStubs["io"] += "var EOF error\n"
 	trLeanKeywords["include"] = true
 	trLeanKeywords["omit"] = true
 }
@@ -203,6 +206,9 @@ func (t *tsT) leanType(from *tsUnit, ty types.Type, pos token.Pos) string {
 	if tsIsBuilder(ty) {
 		return "Syn.GoString"
 	}
+	if s := tspLeanType(ty); s != "" { // io.Writer, []byte (trans_syntax_printer.go)
+		return s
+	}
 	switch x := ty.(type) {
 	case *types.Basic:
 		switch {
@@ -339,8 +345,8 @@ func (t *tsT) needError(pos token.Pos) {
 		args = append(args, fmt.Sprintf("(%s : %s)", trMangle(f.Name()), ft))
 	}
 	var b strings.Builder
-	fmt.Fprintf(&b, "/-- Go: the interface `error`, closed over the values the translated code creates: `nil`, the variable `io.EOF`, and\n`directives.Error` (%s), whose fields are the arguments of `Error` -/\n", t.l.relPos(tn.Pos()))
-	fmt.Fprintf(&b, "inductive GoError where\n  | nil\n  | io_EOF\n  | Error %s\n  deriving DecidableEq, Repr\ninstance : GoZero GoError := ⟨GoError.nil⟩\n", strings.Join(args, " "))
+	fmt.Fprintf(&b, "/-- Go: the interface `error`, closed over the values the translated code creates: `nil`, the variable `io.EOF`,\n`directives.Error` (%s), whose fields are the arguments of `Error`, and the result of `fmt.Errorf` (its constant format only) -/\n", t.l.relPos(tn.Pos()))
+	fmt.Fprintf(&b, "inductive GoError where\n  | nil\n  | io_EOF\n  | Error %s\n  | fmt_Errorf (format : Syn.GoString)\n  deriving DecidableEq, Repr\ninstance : GoZero GoError := ⟨GoError.nil⟩\n", strings.Join(args, " "))
 	t.decls[u] = append(t.decls[u], b.String())
 }
 
@@ -592,6 +598,7 @@ func (t *tsT) assignedObjs(info *types.Info, nodes ...ast.Node) map[types.Object
 					return true
 				}
 				full := fo.FullName()
+				tspMarkWriter(info, x, full, mark)
 				if full == "(*strings.Builder).WriteString" {
 					if sel, ok := trUnparen(x.Fun).(*ast.SelectorExpr); ok {
 						mark(sel.X)
@@ -843,6 +850,7 @@ func tsRun(repo string) (map[string]string, []string) {
 		fmt.Fprintf(&b, "end %s\n", t.ns(u))
 		files["Trans"+u.mod+".lean"] = b.String()
 	}
+	t.rejects = append(t.rejects, t.tspCheckPinnedFuncs()...)
 	index.WriteString("\n]\n\nend Knut.Generated.TransSyntax\n")
 	files["TransSyntax.lean"] = index.String()
 	return files, t.rejects
